@@ -181,3 +181,32 @@ class MP:
 
     def __repr__(self):
         return f"MP<{self.text()}>"
+
+
+def inequality_set(test):
+    """a conjunction of (possibly chained) arithmetic comparisons -> frozenset of normalised (polynomial, op) facts;
+    None when `test` is not of that form.  `a >= s and a < s + n` and `0 <= a - s < n` give the same set."""
+    parts = []
+    if isinstance(test, ast.BoolOp) and isinstance(test.op, ast.And):
+        items = list(test.values)
+    else:
+        items = [test]
+    for it in items:
+        if not isinstance(it, ast.Compare):
+            return None
+        left = it.left
+        for op, right in zip(it.ops, it.comparators):
+            c = compare_norm(ast.Compare(left=left, ops=[op], comparators=[right]))
+            if c is None:
+                return None
+            p, o = c
+            # a <= b  ==  a < b + 1 over the integers: use the strict forms only
+            if o == "<=":
+                p, o = poly_sub(p, {(): 1}), "<"
+            elif o == ">=":
+                p, o = poly_sub(p, {(): -1}), ">"
+            if o == ">":
+                p, o = {m: -k for m, k in p.items()}, "<"
+            parts.append((tuple(sorted(p.items())), o))
+            left = right
+    return frozenset(parts)
